@@ -382,9 +382,14 @@ pub fn conc_configs(prop: &str, thorough: bool) -> Vec<SimConfig> {
     match (prop, thorough) {
         ("C02", false) => pick(&["n2-full-preempt-true", "n2-lax-is-open"]),
         ("C02", true) => pick(&["n2-full-preempt-true", "n2-full-preempt-false", "n2-lax-is-open", "n2-lax-is-open-max0", "n2-upgrade", "n2-split-handshake-preempt-true", "n2-two-origins"]),
-        ("C03" | "C19", false) => pick(&["n2-full-preempt-true", "n2-full-preempt-false"]),
+        ("C03" | "C19", false) => {
+            let mut v = pick(&["n2-full-preempt-true", "n2-full-preempt-false"]);
+            v.extend(held_yield_cfgs_c03());
+            v
+        }
         ("C03" | "C19", true) => {
             let mut v = pick(&["n2-full-preempt-true", "n2-full-preempt-false", "n2-split-handshake-preempt-true", "n2-split-handshake-preempt-false", "n2-two-origins"]);
+            v.extend(held_yield_cfgs_c03());
             // three requests (an owner, a follower and a third party), request completion as one step, every
             // state within nine steps
             for mut c in pick(&["n3-macro-preempt-true", "n3-macro-preempt-false"]) {
@@ -397,11 +402,13 @@ pub fn conc_configs(prop: &str, thorough: bool) -> Vec<SimConfig> {
         ("C04", false) => {
             let mut v = pick(&["n2-full-preempt-true"]);
             v.extend(fresh_close_cfgs(false));
+            v.push(held_yield_cfg_c04());
             v
         }
         ("C04", true) => {
             let mut v = pick(&["n2-full-preempt-true", "n2-full-preempt-false", "n2-two-origins"]);
             v.extend(fresh_close_cfgs(true));
+            v.push(held_yield_cfg_c04());
             for mut c in pick(&["n3-macro-preempt-true"]) {
                 c.name = format!("{}-d9", c.name);
                 c.max_depth = Some(9);
@@ -478,6 +485,35 @@ fn fresh_close_cfgs(thorough: bool) -> Vec<SimConfig> {
         v.push(c);
     }
     v
+}
+
+/// Interleaving configurations that also park INSIDE the pool's critical sections, so that code which only tries
+/// the lock (and gives up when it is held) is seen giving up. C03: the owner of an HTTP/2 attempt is cancelled, or
+/// its background attempt fails, while another operation holds the pool lock.
+fn held_yield_cfgs_c03() -> Vec<SimConfig> {
+    let mut a = SimConfig::base("n2-h2-held-yields-preempt-false");
+    a.allow_h1 = false;
+    a.continue_after_preemption = false;
+    a.ev_dial_fail = false;
+    a.ev_close = false;
+    let mut b = SimConfig::base("n2-h2-held-yields-dial-fail");
+    b.allow_h1 = false;
+    b.ev_close = false;
+    vec![a, b]
+}
+
+/// C04: the search starts with one idle HTTP/1.1 connection; two more requests; critical-section yields. A
+/// request that is issued (and takes the idle connection) and dropped before it is polled must put the connection
+/// back even if another operation holds the pool lock at that moment.
+fn held_yield_cfg_c04() -> SimConfig {
+    let mut c = SimConfig::base("one-idle-h1-held-yields");
+    c.prelude = ["Issue(o0,h1)", "Poll(r0)", "DialOk(d0)", "Poll(r0)", "Finish(r0)"].iter().map(|s| s.to_string()).collect();
+    c.max_requests = 3;
+    c.allow_h2 = false;
+    c.ev_dial_fail = false;
+    c.ev_close = false;
+    c.max_depth = Some(6);
+    c
 }
 
 pub fn opts_for(prop: &'static str, thorough: bool) -> Opts {
